@@ -33,7 +33,7 @@ func vAttempt(name string, hi int) int {
 func vLinearAttempt() int {
 	set := []int{0, 1, 3}
 	if verif.Tier() > 0 {
-		set = []int{0, 1, 2, 3, 4, 5, 6, 7, 8, 9, 15, 16, 99, 100, 999, 1000}
+		set = []int{0, 1, 2, 3, 7, 16, 100, 1000}
 	}
 	return set[verif.Choice("nlinear", len(set))]
 }
@@ -49,12 +49,12 @@ func vConfig() *RetryPolicyConfiguration {
 }
 
 // VerifOverrideRandFloat64 replaces (*math/rand.Rand).Float64 under the engine:
-// a jitter factor on the grid k/8 (thorough: k/256).
+// a jitter factor on the grid k/8 (thorough: k/32).
 func VerifOverrideRandFloat64(r *rand.Rand) float64 {
 	// explored value by value: a symbolic factor times a symbolic 52-bit duration in
 	// float64 is not decided by any available back end within the time-out
 	if verif.Tier() > 0 {
-		return float64(verif.Len("jitter256", 0, 255)) / 256
+		return float64(verif.Len("jitter32", 0, 31)) / 32
 	}
 	return float64(verif.Len("jitter8", 0, 7)) / 8
 }
